@@ -53,7 +53,7 @@ RULE = ('cases = (package of 2-6 models in per-file or cube format, 6-20 wavelen
         'of the generated inputs')
 REQUIRED_BRANCHES = ['per_file', 'cube', 'dist_independent', 'dist_dependent', 'table_permuted', 'flag1', 'flag4',
                      'staged_convolution', 'staged_table_not_alphabetical', 'staged_first_stage_checked',
-                     'apertures_tabulated_in_AU', 'apertures_tabulated_other_unit', 'cube_fitted_at_wavelengths_table_permuted',
+                     'apertures_tabulated_in_AU', 'apertures_tabulated_other_unit', 'cube_fitted_at_wavelengths_table_permuted', 'wavelength_requested_between_geometric_and_arithmetic_mean',
                      'table_reordered_after_convolution', 'stale_convolved_files_refused_then_overwritten',
                      'write_parameters_additional_column', 'fit_output_convolved', 'package_in_mJy', 'package_in_other_flux_unit', 'own_grids_same_length', 'own_grids_mixed_lengths', 'other_model_zero_flux', 'other_model_zero_flux_indep', 'distance_unit_kpc', 'distance_unit_other',
                      'dist_dependent_unit_not_kpc', 'av0_at_lower_bound', 'av0_at_upper_bound', 'av_range_from_zero',
@@ -147,6 +147,14 @@ def gen_case(rng, directed=None):
             mono = True
             nf = len(picked)
             filters = [dict(name='W%d' % j, cen=w, wav=[w], resp=[1.]) for j, w in enumerate(picked)]
+            # some wavelengths are requested OFF the grid, between the geometric and the arithmetic mean of the tabulated
+            # wavelength and its upper neighbour: the nearest tabulated wavelength (in wavelength) is still `cen`,
+            # the nearest in log-wavelength would be the neighbour; placed near either mean and in the middle
+            for f in filters:
+                if directed.get('offgrid', rng.random() < 0.5):
+                    up = wav[wav.index(f['cen']) + 1]
+                    gm, am = math.sqrt(f['cen'] * up), 0.5 * (f['cen'] + up)
+                    f['req'] = gm + rng.choice([0.02, 0.5, 0.98]) * (am - gm)
     theta = [nice(rng, 1., 10., 2) for _ in range(nf)]
     # distance grid and aperture table
     dunit = directed.get('dunit', rng.choice(['kpc', 'kpc', 'pc', 'Mpc', 'cm', 'lyr']))
@@ -228,7 +236,7 @@ def gen_case(rng, directed=None):
         beta = rng.uniform(0.3, 0.9) if attempt < 40 else 0.6
         chi = [float('%.3g' % (top * (w / 0.05) ** (-beta) * 10 ** rng.uniform(-0.05, 0.05))) for w in tw]
         chi = sorted(chi, reverse=True)
-        kk = [-0.4 * float(np.interp(f['cen'], tw, chi)) / float(np.interp(0.55, tw, chi)) for f in filters]
+        kk = [-0.4 * float(np.interp(f.get('req', f['cen']), tw, chi)) / float(np.interp(0.55, tw, chi)) for f in filters]
         gaps = [abs(a - b) for i, a in enumerate(kk) for b in kk[i + 1:]]
         if min(gaps) >= 0.02 and min(abs(x) for x in kk) >= 0.01:
             break
@@ -585,7 +593,7 @@ def run_stage(case, d, params_by_name, k):
         for i, n in enumerate(names):
             file_flux[i, j, :] = fl[labels.index(n)]
     ext = pk.make_extinction(case['tab_w'], case['tab_chi'])
-    ks = np.asarray(ext.get_av(np.array([f['cen'] for f in case['filters']]) * u.micron), dtype=float)
+    ks = np.asarray(ext.get_av(np.array([f.get('req', f['cen']) for f in case['filters']]) * u.micron), dtype=float)
     planted = []
     datafile = os.path.join(d, 'data_%d.txt' % k)
     with open(datafile, 'w') as fh:
@@ -597,7 +605,7 @@ def run_stage(case, d, params_by_name, k):
     out = os.path.join(d, 'fit_output_%d.fitinfo' % k)
     txt = os.path.join(d, 'parameters_%d.txt' % k)
     with common.quiet():
-        fit(datafile, ([f['cen'] * u.micron for f in case['filters']] if case.get('mono') else [f['name'] for f in case['filters']]),
+        fit(datafile, ([f.get('req', f['cen']) * u.micron for f in case['filters']] if case.get('mono') else [f['name'] for f in case['filters']]),
             np.array(case['theta']) * u.arcsec, d, out,
             n_data_min=case['n_data_min'], extinction_law=ext, av_range=tuple(case['av']),
             distance_range=drange_quantity(case), output_format=tuple(case.get('output_format') or ('N', len(names))),
@@ -674,7 +682,7 @@ def model_exact(case, src, run, si):
     line = ['fit2', rat(case['av'][0]), rat(case['av'][1]), rat(0.55), str(len(case['tab_w']))]
     for w, c in zip(case['tab_w'], case['tab_chi']):
         line += [rat(w), rat(c)]
-    line.append(rats([f['cen'] for f in case['filters']]))
+    line.append(rats([f.get('req', f['cen']) for f in case['filters']]))
     line.append(str(nf))
     p = run['planted'][si]
     for f, x, e in zip(src['flags'], p['flux'], p['err']):
@@ -954,6 +962,8 @@ def run_case(case):
                 branches.add('fit_output_convolved')
             if case.get('mono'):
                 branches.add('cube_fitted_at_wavelengths_table_permuted')
+                if any('req' in f for f in case['filters']):
+                    branches.add('wavelength_requested_between_geometric_and_arithmetic_mean')
             if case.get('retable'):
                 branches.add('table_reordered_after_convolution')
             if case['dep']:
